@@ -2,6 +2,7 @@ package main
 
 import (
 	"fmt"
+	"go/types"
 	"sort"
 
 	"verif/checker/internal/ir"
@@ -24,5 +25,34 @@ func dumpVocab(p *load.Program) {
 	sort.Strings(names)
 	for _, n := range names {
 		fmt.Printf("\t%q: %q,\n", n, sigs[n])
+	}
+}
+
+// dumpFields prints every struct type of the closure with its fields in order (regenerates
+// internal/normalize/vocab_fields.go).
+func dumpFields(p *load.Program) {
+	var lines []string
+	for _, pk := range p.Closure {
+		sc := pk.Types.Scope()
+		for _, name := range sc.Names() {
+			tn, ok := sc.Lookup(name).(*types.TypeName)
+			if !ok {
+				continue
+			}
+			st, ok := tn.Type().Underlying().(*types.Struct)
+			if !ok {
+				continue
+			}
+			l := fmt.Sprintf("\t%q: {", pk.Types.Name()+"."+name)
+			for i := 0; i < st.NumFields(); i++ {
+				f := st.Field(i)
+				l += fmt.Sprintf("%q, ", f.Name()+":"+types.TypeString(f.Type(), func(p *types.Package) string { return p.Name() }))
+			}
+			lines = append(lines, l+"},")
+		}
+	}
+	sort.Strings(lines)
+	for _, l := range lines {
+		fmt.Println(l)
 	}
 }
